@@ -669,3 +669,181 @@ package raft
 //@   at call r.fsm.Snapshot assert [snapshot-exact] fsmIndex == sfIndex[snapshot]
 //@   at call r.log.Compact assert [compact-label] arg0 == r.lastIncludedIndex && r.lastIncludedIndex == lastAppliedEntry.Index && r.lastIncludedTerm == lastAppliedEntry.Term && r.lastIncludedIndex <= r.lastApplied
 //@   at before-assign r.lastIncludedIndex assert [included-monotone] newval > r.lastIncludedIndex
+
+// ===========================================================================================
+// C12 (a): the bundled log refines the Log interface contract
+// ===========================================================================================
+// Representation invariant of an open persistentLog, and its abstraction to the view
+// (Lfirst, Llast, Lterm, Ltyp, Ldata) used by the interface contract:
+//   Lfirst = entries[0].Index, Llast = entries[len-1].Index, Lterm[Lfirst+k] = entries[k].Term ...
+
+//@ spec logRI(l) = l.file != nil && len(l.entries) >= 1 && l.entries[0].Index + len(l.entries) - 1 <= 18446744073709551615 && forall k int :: 0 <= k && k < len(l.entries) ==> l.entries[k] != nil && l.entries[k].Index == l.entries[0].Index + k
+//@ spec absFirst(l) = l.entries[0].Index
+//@ spec absLast(l) = l.entries[0].Index + len(l.entries) - 1
+//@ spec absContains(l, i) = absFirst(l) < i && i <= absLast(l)
+//@ spec sameAbove(l, lo) = forall k int :: lo <= k && k < len(l.entries) ==> l.entries[k] == old(l.entries[k])
+
+//@ func persistentLog.Contains
+//@   requires logRI(l)
+//@   ensures [spec] result == absContains(l, index)
+//@ func persistentLog.LastIndex
+//@   requires logRI(l)
+//@   ensures [spec] result == absLast(l)
+//@ func persistentLog.NextIndex
+//@   requires logRI(l)
+//@   ensures [spec] result == absLast(l) + 1
+//@ func persistentLog.LastTerm
+//@   requires logRI(l)
+//@   ensures [spec] result == l.entries[len(l.entries)-1].Term
+//@ func persistentLog.Size
+//@   requires logRI(l)
+//@   ensures [spec] result == absLast(l) - absFirst(l)
+//@ func persistentLog.GetEntry
+//@   requires l.file != nil ==> logRI(l)
+//@   ensures [found] l.file != nil && absContains(l, index) ==> err == nil && result0 != nil && result0 == l.entries[index - absFirst(l)] && result0.Index == index
+//@   ensures [missing] l.file == nil || !absContains(l, index) ==> err != nil && result0 == nil
+
+// Thin ghost model of files for the bundled storages: per handle f, fPos[f] is its position and
+// fSynced[f] tells whether everything written through it has been fsynced.
+//@ ghost fPos map[int]int
+//@ ghost fSynced map[int]bool
+//@ ghost fClosed map[int]bool
+// tornTail: the bytes after the last complete record on disk are a strict, non-empty prefix of one
+// record (what a crash in the middle of an append leaves behind).
+//@ ghost tornTail bool
+//@ threadlocal g.tornTail
+
+//@ extern os.File.Seek(offset, whence) (pos, err)
+//@   modifies fPos
+//@   ensures ioOK ==> err == nil
+//@   ensures err == nil && whence == 1 && offset == 0 ==> pos == old(fPos[self]) && fPos[self] == old(fPos[self])
+//@   ensures err == nil && whence == 0 ==> pos == offset && fPos[self] == offset
+//@   ensures err == nil ==> pos >= 0
+//@   ensures forall g int :: g != self ==> fPos[g] == old(fPos[g])
+//@ extern os.File.Sync() (err)
+//@   modifies fSynced
+//@   ensures ioOK ==> err == nil
+//@   ensures err == nil ==> fSynced[self]
+//@   ensures forall g int :: g != self ==> fSynced[g] == old(fSynced[g])
+//@ extern os.File.Close() (err)
+//@   modifies fClosed
+//@   ensures ioOK ==> err == nil
+//@   ensures err == nil ==> fClosed[self]
+//@   ensures forall g int :: g != self ==> fClosed[g] == old(fClosed[g])
+//@ extern os.File.Truncate(size) (err)
+//@   modifies fSynced
+//@   ensures ioOK ==> err == nil
+//@   ensures !fSynced[self]
+//@   ensures forall g int :: g != self ==> fSynced[g] == old(fSynced[g])
+//@ extern os.File.Name() (name)
+//@ extern os.CreateTemp(dir, pattern) (f, err)
+//@   modifies fPos, fSynced, fClosed
+//@   ensures ioOK ==> err == nil
+//@   ensures err == nil ==> f != nil && fresh(f) && fPos[f] == 0 && !fClosed[f]
+//@   ensures forall g int :: g != f ==> fPos[g] == old(fPos[g]) && fSynced[g] == old(fSynced[g]) && fClosed[g] == old(fClosed[g])
+//@ extern os.OpenFile(name, flag, perm) (f, err)
+//@   modifies fPos, fSynced, fClosed
+//@   ensures ioOK ==> err == nil
+//@   ensures err == nil ==> f != nil && fresh(f) && fPos[f] == 0 && !fClosed[f]
+//@   ensures forall g int :: g != f ==> fPos[g] == old(fPos[g]) && fSynced[g] == old(fSynced[g]) && fClosed[g] == old(fClosed[g])
+//@ extern os.Rename(oldpath, newpath) (err)
+//@   ensures ioOK ==> err == nil
+//@ extern os.Remove(name) (err)
+//@ extern os.RemoveAll(path) (err)
+
+// encodeLogEntry writes one record (4-byte length + protobuf of all five fields, incl. Offset) at
+// the writer's position. Trusted: protobuf/binary encoding.
+//@ func encodeLogEntry
+//@   flags trusted
+//@   modifies fPos, fSynced
+//@   ensures ioOK ==> err == nil
+//@   ensures err == nil ==> fPos[w] > old(fPos[w]) + 4
+//@   ensures !fSynced[w]
+//@   ensures forall g int :: g != w ==> fPos[g] == old(fPos[g]) && fSynced[g] == old(fSynced[g])
+// decodeLogEntry reads the next record; io.EOF exactly at a clean end, any other error for a torn
+// record (header 1-3 bytes, or body shorter than announced) - except the header-only tail, see F5.
+//@ func decodeLogEntry
+//@   flags trusted
+//@   ensures tornTail ==> (err == nil || !iserr(err, io.EOF))
+
+//@ func persistentLog.AppendEntries
+//@   requires l.file != nil ==> logRI(l)
+//@   requires forall j int :: 0 <= j && j < len(entries) ==> entries[j] != nil
+//@   requires l.file != nil ==> forall j int :: 0 <= j && j < len(entries) ==> entries[j].Index == absLast(l) + 1 + j
+//@   requires l.file != nil ==> absLast(l) + len(entries) <= 18446744073709551615
+//@   ensures [ri] err == nil ==> logRI(l)
+//@   ensures [refines] err == nil ==> absLast(l) == old(absLast(l)) + len(entries) && absFirst(l) == old(absFirst(l))
+//@   ensures [closed] old(l.file) == nil ==> err != nil && l.entries == old(l.entries)
+//@   ensures [appended] err == nil ==> len(l.entries) == old(len(l.entries)) + len(entries) && (forall k int :: 0 <= k && k < old(len(l.entries)) ==> l.entries[k] == old(l.entries[k])) && (forall j int :: 0 <= j && j < len(entries) ==> l.entries[old(len(l.entries)) + j] == entries[j])
+//@   ensures [error-frame] err != nil ==> l.entries == old(l.entries)
+//@   at call encodeLogEntry assert [offset-current] arg1.Offset == fPos[l.file] && arg0 == l.file
+//@   at before-assign l.entries assert [sync-before-publish] fSynced[l.file]
+
+//@ func persistentLog.AppendEntry
+//@   flags inline
+
+//@ func persistentLog.Truncate
+//@   requires l.file != nil ==> logRI(l)
+//@   ensures [spec] err == nil ==> old(absContains(l, index)) && len(l.entries) == index - old(absFirst(l)) && forall k int :: 0 <= k && k < len(l.entries) ==> l.entries[k] == old(l.entries[k])
+//@   ensures [missing] old(l.file) != nil && !old(absContains(l, index)) ==> err != nil
+//@   ensures [error-frame] err != nil ==> l.entries == old(l.entries)
+//@   ensures [ri] err == nil ==> logRI(l)
+//@   ensures [refines] err == nil ==> absLast(l) == index - 1 && absFirst(l) == old(absFirst(l))
+//@   at call l.file.Truncate assert [truncate-at-record] arg0 == l.entries[index - absFirst(l)].Offset
+//@   at before-assign l.entries assert [sync-before-publish] fSynced[l.file] && fPos[l.file] == l.entries[index - absFirst(l)].Offset
+
+//@ func persistentLog.Compact
+//@   requires l.file != nil ==> logRI(l)
+//@   ensures [spec] err == nil ==> old(absContains(l, index)) && len(l.entries) == old(len(l.entries)) - (index - old(absFirst(l))) && forall k int :: 0 <= k && k < len(l.entries) ==> l.entries[k] == old(l.entries[k + (index - absFirst(l))])
+//@   ensures [missing] old(l.file) != nil && !old(absContains(l, index)) ==> err != nil
+//@   ensures [error-frame] err != nil ==> l.entries == old(l.entries)
+//@   ensures [ri] err == nil ==> logRI(l)
+//@   ensures [refines] err == nil ==> absFirst(l) == index && absLast(l) == old(absLast(l))
+//@   at call encodeLogEntry assert [offset-current] arg1.Offset == fPos[tmpFile] && arg0 == tmpFile
+//@   loop range newEntries invariant [tmp] tmpFile != nil
+
+//@ func persistentLog.DiscardEntries
+//@   ensures [spec] err == nil ==> len(l.entries) == 1 && l.entries[0] != nil && l.entries[0].Index == index && l.entries[0].Term == term && l.entries[0].Offset == 0
+//@   ensures [error-frame] err != nil ==> l.entries == old(l.entries)
+//@   ensures [ri] err == nil ==> logRI(l)
+//@   ensures [refines] err == nil ==> absFirst(l) == index && absLast(l) == index
+//@   at call encodeLogEntry assert [offset-current] arg1.Offset == fPos[tmpFile] && arg0 == tmpFile
+
+//@ func persistentLog.rename
+//@   requires tmpFile != nil && l.file != nil
+//@   ensures [reopened] err == nil ==> l.file != nil
+//@   at call os.Rename assert [synced-closed-before-rename] fSynced[tmpFile] && fClosed[tmpFile] && fClosed[l.file]
+
+//@ func persistentLog.Replay
+//@   requires l.file != nil
+//@   ensures [torn-tail] tornTail && ioOK ==> err == nil
+
+// ===========================================================================================
+// C13: term/vote storage and snapshot storage (write-temp-then-rename protocol)
+// ===========================================================================================
+
+//@ func encodePersistentState
+//@   flags trusted
+//@   modifies fPos, fSynced
+//@   ensures ioOK ==> err == nil
+//@   ensures !fSynced[w]
+//@   ensures forall g int :: g != w ==> fPos[g] == old(fPos[g]) && fSynced[g] == old(fSynced[g])
+//@ func decodePersistentState
+//@   flags trusted
+//@ extern os.Stat(name) (info, err)
+//@ extern os.ReadFile(name) (data, err)
+
+//@ func persistentStateStorage.SetState
+//@   ensures [cache] err == nil ==> p.state != nil && p.state.term == term && p.state.votedFor == votedFor
+//@   at call os.Rename assert [complete-synced-closed-before-rename] fSynced[tmpFile] && fClosed[tmpFile] && p.state.term == term && p.state.votedFor == votedFor
+//@   at call encodePersistentState assert [writes-new-state] arg0 == tmpFile && arg1.term == term && arg1.votedFor == votedFor
+
+//@ func persistentStateStorage.State
+//@   ensures [cached] old(p.state) != nil ==> err == nil && result0 == old(p.state.term) && result1 == old(p.state.votedFor)
+
+//@ func snapshotFile.Close
+//@   at call os.Rename assert [synced-closed-before-publish] fSynced[s.file] && fClosed[s.file] && arg0 == s.tmpDir && arg1 == s.dir
+//@   ensures [handle-cleared] s.file == nil
+
+//@ func snapshotFile.Discard
+//@   ensures [keeps-published] old(s.file) == nil ==> err == nil
